@@ -53,6 +53,10 @@ pub struct IterCase {
     pub others: Vec<Vec<IOp>>,
     pub nested: Vec<INested>,
     pub schedule: Vec<u8>,
+    /// deliveries made by the observer after it closed the instance, i.e. while the consumer
+    /// finishes and drops it
+    #[serde(default)]
+    pub late: Vec<u8>,
 }
 
 pub fn strategy(with_close: bool) -> BoxedStrategy<IterCase> {
@@ -90,11 +94,12 @@ pub fn strategy(with_close: bool) -> BoxedStrategy<IterCase> {
             0..4,
         ),
         schedule_strategy(200),
+        prop_oneof![1 => Just(vec![]), 1 => vec(0u8..3, 1..5)],
     )
-        .prop_map(|(exf, consumer, polls, init, others, nested, schedule)| {
+        .prop_map(|(exf, consumer, polls, init, others, nested, schedule, late)| {
             let n = others.len() + 1;
             let nested = nested.into_iter().map(|(t, at, sig, on)| INested { thread: t % n, at, sig, on }).collect();
-            IterCase { exf, consumer, polls, init, others, nested, schedule }
+            IterCase { exf, consumer, polls, init, others, nested, schedule, late }
         })
         .boxed()
 }
@@ -436,6 +441,8 @@ pub fn execute(case: &IterCase) -> (RunResult, CaseReport) {
     {
         // quiescence observer
         let get_handle = get_handle.clone();
+        let late = case.late.clone();
+        let slot_for_observer = handle_slot.clone();
         bodies.push(Box::new(move || {
             let blocked = vsched::wait_idle();
             let desc = format!("{:?}", blocked);
@@ -449,6 +456,13 @@ pub fn execute(case: &IterCase) -> (RunResult, CaseReport) {
                 let c = vsched::call("is_closed", 1, 0);
                 let b = h.is_closed();
                 vsched::ret(c, b as i64);
+                drop(h);
+            }
+            // nobody but the consumer holds the instance from here on
+            *slot_for_observer.lock().unwrap() = None;
+            // the world does not stop sending signals while the instance is torn down
+            for s in &late {
+                sim_deliver(SIGS[*s as usize % 3], false);
             }
         }));
     }
